@@ -113,18 +113,25 @@ deriving Repr, DecidableEq
 def geTwoPow (num den : Nat) (k : Int) : Bool :=
   if k ≥ 0 then num ≥ den * 2 ^ k.toNat else num * 2 ^ (-k).toNat ≥ den
 
-/-- round the positive rational `num/den` to binary64 (nearest, ties to even, gradual underflow,
-exponent unbounded above): returns mantissa and binary exponent of the result -/
-def roundPos (num den : Nat) : Nat × Int :=
+/-- binary exponent of the last mantissa bit of the binary64 nearest to the positive rational
+`num/den`: with 2^k ≤ num/den < 2^(k+1) it is k − 52, but not below −1074 (gradual underflow) -/
+def ulpExp (num den : Nat) : Int :=
   let lb : Int := (Nat.log2 num : Int) - (Nat.log2 den : Int)
-  let k : Int := if geTwoPow num den lb then lb else lb - 1       -- 2^k ≤ num/den < 2^(k+1)
-  let x : Int := if k - 52 ≥ -1074 then k - 52 else -1074          -- exponent of the last mantissa bit
+  let k : Int := if geTwoPow num den lb then lb else lb - 1
+  if k - 52 ≥ -1074 then k - 52 else -1074
+
+/-- `num/den / 2^x` rounded to the nearest integer, ties to even -/
+def roundAt (num den : Nat) (x : Int) : Nat :=
   let N : Nat := if x ≥ 0 then num else num * 2 ^ (-x).toNat
   let D : Nat := if x ≥ 0 then den * 2 ^ x.toNat else den
   let q0 := N / D
   let r := N % D
-  let q := if 2 * r > D || (2 * r = D && q0 % 2 = 1) then q0 + 1 else q0
-  (q, x)
+  if 2 * r > D || (2 * r = D && q0 % 2 = 1) then q0 + 1 else q0
+
+/-- round the positive rational `num/den` to binary64 (nearest, ties to even, gradual underflow,
+exponent unbounded above): mantissa and binary exponent of the result -/
+def roundPos (num den : Nat) : Nat × Int :=
+  (roundAt num den (ulpExp num den), ulpExp num den)
 
 /-- `q · 2^x ≥ 2^1024` (the result would be ±Inf: strconv reports ErrRange) -/
 def overflows (q : Nat) (x : Int) : Bool :=
@@ -260,11 +267,12 @@ def extractTimeStamp : Scalar → Res
     | some v => .ms v
     | none => .now                                    -- ts_millis = GetCurrentTimeInMs()
 
-/-- what `GetNewPLE` / `ProcessIndexRequestPle` store for an event that arrives at `tsNow` -/
-def storedMillis (tsNow : Int) (sc : Scalar) : Int :=
+/-- what `GetNewPLE` / `ProcessIndexRequestPle` store for an event that arrives at `tsNow`
+(`if tsMillis == 0 { tsMillis = tsNow }`; "now" is the clock read inside ExtractTimeStamp) -/
+def storedMillis (tsNow : Int) (sc : Scalar) : Res :=
   match extractTimeStamp sc with
-  | .ms n => if n = 0 then tsNow else n
-  | .now => tsNow
+  | .ms n => if n = 0 then .ms tsNow else .ms n
+  | .now => .now
 
 /-! ## metrics: "timestamp" → uint32 seconds -/
 
